@@ -2182,6 +2182,19 @@ int EGLPNUM_TYPENAME_ILLlib_addcol (
 	A = &qslp->A;
 	ncols = qslp->ncols;
 
+	{
+		int k;
+		for (k = 0; k < cnt; k++)
+		{
+			if (ind[k] < 0 || ind[k] >= qslp->nrows)
+			{
+				QSlog("EGLPNUM_TYPENAME_ILLlib_addcol called with out-of-range row index %d", ind[k]);
+				rval = 1;
+				ILL_CLEANUP;
+			}
+		}
+	}
+
 	if (qslp->rA)
 	{															/* After an addcol call, needs to be updated */
 		EGLPNUM_TYPENAME_ILLlp_rows_clear (qslp->rA);
